@@ -20,7 +20,7 @@ PROPERTY = "C18"
 KEYS = ["linear:F_bias_kw", "linear:nn", "matmul:param", "gelu:F", "silu:F", "softmax:nn", "dropout:F_p0", "layer_norm:F_affine",
         "layer_norm:nn", "conv1d:F", "sdpa:causal_kw", "sdpa:mask_pos", "ulinear:uu", "usdpa:plain", "tanh", "relu",
         "mul_scalar", "neg", "reshape", "view_t", "rotate_half", "stack_mean", "masked", "index_rows", "with_zeros",
-        "gate_softmax", "add_scalar", "add_param", "iadd_param", "view_inplace", "cmp_two", "cat_kw"]
+        "gate_softmax", "add_scalar", "add_param", "iadd_param", "view_inplace", "cmp_two", "cat_kw", "hand_scaled"]
 SMALL = ["linear:nn", "gelu:F", "softmax:nn", "rotate_half", "stack_mean", "masked", "index_rows", "with_zeros", "reshape",
          "add_param", "sdpa:causal_kw", "neg"]
 RULE = (
@@ -61,6 +61,12 @@ def _progs(tier: str) -> List[Dict[str, Any]]:
     for n, items in enumerate(chains(SMALL, 2)):
         if len(items) == 2:
             add(items, "x", ["sum", "two_outputs", "tensor"][n % 3], n % 5 != 0, x_zeros=(n % 4 == 0))
+    # low-precision models (tracking must not change dtype / values) and a variable named `output`
+    for n, k in enumerate(["linear:nn", "gelu:F", "softmax:nn", "layer_norm:nn", "matmul:param", "tanh", "neg", "stack_mean",
+                           "add_param", "rotate_half", "hand_scaled"]):
+        for dt in ("bfloat16", "float16", "float64"):
+            add([["op", "linear:nn"], ["op", k]], "x", ["sum", "two_outputs", "tensor"][n % 3], True, dtype=dt)
+        add([["op", k]], "x", ["sum", "two_outputs", "tensor"][n % 3], True, out_name="output")
     for order in ("skip_first", "branch_first"):
         for a, b in itertools.product(SMALL[:8], repeat=2):
             add([["op", "linear:nn"], ["res", [["op", a], ["op", b]], order], ["op", "stack_mean"]], "x", "two_outputs")
